@@ -25,6 +25,7 @@ type actorSnap struct {
 	withdraw string
 	grants   map[string]string          // "grantee|msgType" -> limit ("unlimited" or integer) for grants where this actor is the granter
 	allow    map[string]map[string]bool // same key -> validators the grant names (allow list), nil if it has none
+	expiry   map[string]int64           // same key -> expiration (unix seconds, 0: none)
 }
 
 type evmSnap struct {
@@ -62,7 +63,7 @@ func snapEVM(w *e.World) *evmSnap {
 	s := &evmSnap{supply: a.BankKeeper.GetSupply(ctx, e.Denom).Amount.BigInt(), byName: map[string]*actorSnap{}}
 	actors := evmActors(w)
 	for _, ac := range actors {
-		as := &actorSnap{name: ac.name, addr: ac.addr, deleg: map[int]*big.Int{}, shares: map[int]string{}, unbond: new(big.Int), grants: map[string]string{}, allow: map[string]map[string]bool{}}
+		as := &actorSnap{name: ac.name, addr: ac.addr, deleg: map[int]*big.Int{}, shares: map[int]string{}, unbond: new(big.Int), grants: map[string]string{}, allow: map[string]map[string]bool{}, expiry: map[string]int64{}}
 		as.bal = a.BankKeeper.GetBalance(ctx, ac.addr, e.Denom).Amount.BigInt()
 		for vi, v := range w.Vals {
 			if d, ok := a.StakingKeeper.GetDelegation(ctx, ac.addr, v.ValAddr); ok {
@@ -78,9 +79,12 @@ func snapEVM(w *e.World) *evmSnap {
 		as.withdraw = a.DistrKeeper.GetDelegatorWithdrawAddr(ctx, ac.addr).String()
 		for _, gr := range actors {
 			for _, url := range stakingMsgURLs {
-				auth, _ := a.AuthzKeeper.GetAuthorization(ctx, gr.addr, ac.addr, url)
+				auth, exp := a.AuthzKeeper.GetAuthorization(ctx, gr.addr, ac.addr, url)
 				if auth == nil {
 					continue
+				}
+				if exp != nil {
+					as.expiry[gr.name+"|"+url] = exp.Unix()
 				}
 				lim := "other"
 				if sa, ok := auth.(*stakingtypes.StakeAuthorization); ok {
@@ -328,6 +332,25 @@ func c04Check(w *e.World, st *e.Step, pr *Prog, direct *PCall, pre, post *evmSna
 				return e.Violatef("precompile-authority", "allowance-not-reduced-by-amount-used", "grant %s: limit %s, spent %s, now %q (expected %s)", k, preLim, amt, got, want)
 			}
 			w.Stats.Probe("allowance_arithmetic_checked")
+		}
+	}
+	// a grant is "live" until the expiry its granter approved: using (or adjusting) it must not move that
+	if direct == nil || direct.M != "approve" {
+		for _, a := range pre.actors {
+			b := post.byName[a.name]
+			for key, was := range a.expiry {
+				if _, still := b.grants[key]; !still {
+					continue
+				}
+				w.Stats.Probe("grant_expiry_checked")
+				if now := b.expiry[key]; now != was {
+					if c05Suspect {
+						w.Stats.Probe("skipped_attributed_to_C05")
+						return nil
+					}
+					return e.Violatef("precompile-authority", "grant-expiry-changed-by-use", "the grant %s of %s expired at %d before this transaction and at %d (0: never) after it; tx %s", key, a.name, was, now, trunc(string(st.P), 400))
+				}
+			}
 		}
 	}
 	// approve / increase / decrease / revoke by a direct call
